@@ -274,6 +274,8 @@ def families(tier):
         fams.append(('arc-bezier-pairing-%d' % n, 'vf.props.c11', 'fam_arc_bezier_pairing', {'nroots': n}))
     fams.append(('line-point_to_t', 'vf.props.c11arc', 'fam_line_point_to_t', {}))
     fams.append(('arc-arc-circles-all-in', 'vf.props.c11arcarc', 'fam_arc_arc_circles', {'tvals': (0.5, 0.5, 0.5, 0.5)}))
+    for dg in (1, 2, 3):
+        fams.append(('arc-bezier-root-polynomial-deg%d' % dg, 'vf.props.c11arcarc', 'fam_arc_bezier_polynomial', {'deg': dg}))
     for sg in (1, -1):
         fams.append(('arc-arc-circles-complete%s' % ('+' if sg > 0 else '-'), 'vf.props.c11arcarc', 'fam_arc_arc_circles', {'mode': 'complete', 'sign': sg}))
     for sg in (1, -1):
